@@ -87,7 +87,9 @@ def _expand_new_helpers(f):
             g = mod.funcs.get(q)
             if g is None:
                 continue
-            if q in base or g is f or g.vararg or g.kwarg or g.decorators and not all(d == ('var', 'staticmethod') for d in g.decorators):
+            if q in base or g is f or g.vararg or g.decorators and not all(d == ('var', 'staticmethod') for d in g.decorators):
+                return None
+            if g.kwarg and _touches_dict(g.node, g.kwarg):
                 return None
             if any(isinstance(x, (ast.Yield, ast.YieldFrom, ast.Nonlocal, ast.Global)) for x in ast.walk(g.node)):
                 return None
@@ -96,13 +98,26 @@ def _expand_new_helpers(f):
                 sa_ = None                   # static method: no receiver parameter
             elif sa_ is None and g.cls and c[0] == 'attr':
                 return None
-            return (q, g.args + g.kwonly, g.defaults, g.raw_body, sa_, None)
+            return (q, g.args + g.kwonly + (['**' + g.kwarg] if g.kwarg else []), g.defaults, g.raw_body, sa_, None)
         return None
     ex = inline.Expander(resolve, 'py')
     try:
         return ex.block(raw)
     except RecursionError:
         return raw
+
+
+def _touches_dict(fnode, name):
+    """The function stores into / deletes from / calls a mutating method on / rebinds its collected-keywords dictionary `name`."""
+    for x in ast.walk(fnode):
+        if isinstance(x, ast.Name) and x.id == name and isinstance(x.ctx, (ast.Store, ast.Del)):
+            return True
+        if isinstance(x, ast.Subscript) and isinstance(x.value, ast.Name) and x.value.id == name and isinstance(x.ctx, (ast.Store, ast.Del)):
+            return True
+        if isinstance(x, ast.Call) and isinstance(x.func, ast.Attribute) and isinstance(x.func.value, ast.Name) and x.func.value.id == name \
+                and x.func.attr in ('pop', 'popitem', 'update', 'setdefault', 'clear', '__setitem__', '__delitem__'):
+            return True
+    return False
 
 
 class PyModule:
@@ -279,7 +294,9 @@ def _canon_counted_while(stmts):
             if any(x == v for e in stmt_exprs(t) for x in walk_expr(e)) or sub_blocks(t):
                 break
         if init is None:
-            continue
+            # no adjacent initialisation (it sits in a branch, or further up): the loop starts from whatever v holds on entry
+            out[k] = S('for', w.line, var=v[1], lo=v, hi=c[3], step=None, body=body, inclusive=False, orelse=[], declares=False, entry_init=True)
+            return _canon_counted_while(out)
         lo = out[init].value
         out[k] = S('for', w.line, var=v[1], lo=lo, hi=c[3], step=None, body=body, inclusive=False, orelse=[], declares=False)
         del out[init]
